@@ -85,6 +85,39 @@ int main(int argc, char **argv)
       auto back = drive(false, mode, key, iv, outs);
       Ev("stream").i("id", id++).i("enc", 0).i("mode", mode).str("ivcls", "len").b("key", key).b("iv", iv.data(), 16).raw("ins", blocks_json(outs)).raw("outs", blocks_json(back)).raw("orig", blocks_json(ins)).emit();
     }
+  // structured blocks: what a memo, a "nothing to do" shortcut or an aliasing assumption keys on - an all-zero / all-FF
+  // block first, in the middle and last, a block equal to the IV, equal to the key, equal to its predecessor's OUTPUT
+  for (int mode = 0; mode < 5; ++mode)
+    for (int pat = 0; pat < 6; ++pat)
+    {
+      auto key = pat == 5 ? std::vector<u8_t>(16, 0) : rng.bytes(16);
+      auto iv = rng.bytes(20);
+      std::vector<u8_t> Z(16, 0), F(16, 0xff), I(iv.begin(), iv.begin() + 16);
+      std::vector<std::vector<u8_t>> ins;
+      switch (pat)
+      {
+      case 0: ins = {Z, rng.bytes(16), Z, Z, rng.bytes(16), Z}; break;
+      case 1: ins = {F, Z, F, F}; break;
+      case 2: ins = {I, key, I, rng.bytes(16), key}; break;
+      case 3: ins = {rng.bytes(16), Z, Z, Z}; break;
+      case 4: ins = {Z}; break;
+      case 5: ins = {Z, Z, F}; break;      // all-zero key as well
+      }
+      auto outs = drive(true, mode, key, iv, ins);
+      Ev("stream").i("id", id++).i("enc", 1).i("mode", mode).str("ivcls", "structured").b("key", key).b("iv", iv.data(), 16).raw("ins", blocks_json(ins)).raw("outs", blocks_json(outs)).raw("orig", "[]").emit();
+      auto back = drive(false, mode, key, iv, outs);
+      Ev("stream").i("id", id++).i("enc", 0).i("mode", mode).str("ivcls", "structured").b("key", key).b("iv", iv.data(), 16).raw("ins", blocks_json(outs)).raw("outs", blocks_json(back)).raw("orig", blocks_json(ins)).emit();
+      // the decryptor fed the structured blocks directly (no encryptor produced them)
+      auto d = drive(false, mode, key, iv, ins);
+      Ev("stream").i("id", id++).i("enc", 0).i("mode", mode).str("ivcls", "structured").b("key", key).b("iv", iv.data(), 16).raw("ins", blocks_json(ins)).raw("outs", blocks_json(d)).raw("orig", "[]").emit();
+      // feed the encryptor its own previous output (chaining shortcuts)
+      if (outs.size() >= 2)
+      {
+        std::vector<std::vector<u8_t>> again = {outs[0], outs[0], outs[1]};
+        auto o2 = drive(true, mode, key, iv, again);
+        Ev("stream").i("id", id++).i("enc", 1).i("mode", mode).str("ivcls", "structured").b("key", key).b("iv", iv.data(), 16).raw("ins", blocks_json(again)).raw("outs", blocks_json(o2)).raw("orig", "[]").emit();
+      }
+    }
   // long sequences crossing one- and two-byte counter carries from a ..fe ff start
   for (int mode = 0; mode < 5 && longlen > 0; ++mode)
   {
